@@ -199,6 +199,9 @@ def err_digest(e):
         name = ty
         trait = re.sub(r"<.*", "", tr).split("::")[-1]
     name = re.sub(r"<.*", "", name).split("::")[-1].strip("&' ")
+    es = re.search(r"`from_response` exists for struct `EventStream<([^`]*)>`, but its trait bounds were not satisfied", msg)
+    if es:
+        name, trait = re.sub(r"<.*", "", es.group(1)).split("::")[-1], "from_response"      # the payload type whose bound is missing
     hm = re.search(r"\{(\w+)::<", msg)
     if hm and "Handler<" in msg:
         name = hm.group(1)          # the handler function a `Handler<_, _>` bound is about
